@@ -475,6 +475,17 @@ func scripted(k int) Sx {
 		blk(4, 2, N+2, nil, []uint64{0, 0}, rich)
 		g.emitAdd(t)
 		g.ops = append(g.ops, L(I(2), U(1), U(N)), L(I(2), U(3), U(N+1)), L(I(2), U(4), U(N+1)))
+	case 2: // recheck tests "gapped" before it drops the stale prefix: reinjected [n2] + pooled [n4 n5] with state nonce 3 keeps [n4 n5]
+		g.datacap = 8 * 141376
+		t2, t3, t4, t5 := mk(0, 2, 5), mk(0, 3, 5), mk(0, 4, 5), mk(0, 5, 5)
+		x3, y2 := mk(0, 3, 6), mk(0, 2, 6) // never submitted: mined by the signer behind the pool's back
+		blk(0, 0, N, nil, []uint64{2, 0}, rich)
+		blk(1, 0, N+1, []btxSpec{{t2.id, 0, true}, {x3.id, 0, true}, {t4.id, 0, true}}, []uint64{5, 0}, rich)
+		blk(2, 0, N+1, []btxSpec{{y2.id, 0, true}}, []uint64{3, 0}, rich)
+		for _, t := range []*txSpec{t2, t3, t4, t5} {
+			g.emitAdd(t)
+		}
+		g.ops = append(g.ops, L(I(2), U(1), U(N)), L(I(2), U(2), U(N)))
 	}
 	return g.caseSx(1)
 }
@@ -483,6 +494,7 @@ func genAll(r *Rng, tier string, emit func(Sx)) {
 	if os.Getenv("C42_SCRIPTED") != "" {
 		emit(scripted(0))
 		emit(scripted(1))
+		emit(scripted(2))
 		return
 	}
 	r = NewRng(r.U64())
